@@ -6,7 +6,7 @@
    these lemmas false: a proof obligation breaks directly. *)
 From Coq Require Import List ZArith Lia Bool Arith NArith.
 From Coq.Strings Require Import Byte.
-From Muduo Require Import Base_Bytes Gen_Consts Gen_C18 C10_Model C18_Model C18_EncModel C18_HttpSrvModel.
+From Muduo Require Import Base_Bytes Gen_Consts Gen_C18 C10_Model C18_Model C18_EncModel C18_HttpSrvModel C18_OldCodec.
 Import ListNotations.
 Local Open Scope Z_scope.
 Local Notation Zn := Z.of_nat.
@@ -174,4 +174,47 @@ Lemma gen_http_server : forall (ok g c : bool) (v : version),
 Proof.
   intros. unfold HttpServer_onMessage_if0, HttpServer_onMessage_if1, HttpServer_onRequest_cmp0, appendToBuffer_if0.
   repeat split; destruct v; reflexivity.
+Qed.
+
+
+(* ---- the OLD codec: ProtobufCodec::onMessage / parse / fillEmptyBuffer (examples/protobuf/codec/codec.cc) ----
+   buf = P + off; kNoError = 0 (first enumerator); [mok] = the shared_ptr's operator bool *)
+Lemma gen_old_codec : forall (b : list byte) (len nameLen P off e a c bs : Z) (r : nat) (mok : bool),
+  old_onMessage_while0 okHeaderLen okMinMessageLen (Zn (length b))
+    = (Zn (length b) >=? okMinMessageLen + okHeaderLen) /\
+  old_onMessage_if0 okMaxMessageLen okMinMessageLen len = olength_bad len /\
+  (old_onMessage_cmp0 okMaxMessageLen len || old_onMessage_cmp1 okMinMessageLen len)%bool = olength_bad len /\
+  old_onMessage_if1 okHeaderLen len (Zn (length b)) = (Zn (length b) >=? len + okHeaderLen) /\
+  old_onMessage_cmp2 okHeaderLen len (Zn (length b)) = (Zn (length b) >=? len + okHeaderLen) /\
+  old_onMessage_call0_parse_arg0 okHeaderLen P - P = okHeaderLen /\
+  old_onMessage_call0_parse_arg1 len = len /\
+  old_onMessage_if2 e 0 mok = ((e =? 0) && mok)%bool /\
+  old_onMessage_cmp3 e 0 = (e =? 0) /\
+  old_onMessage_call1_retrieve okHeaderLen len = okHeaderLen + len /\
+  old_onMessage_let_len len = len /\
+  (let buf := P + off in
+   old_parse_call0_asInt32 buf okHeaderLen len - P = off + len - okHeaderLen /\
+   old_parse_call1_adler32_arg0 buf = buf /\
+   old_parse_call1_adler32_arg1 okHeaderLen len = len - okHeaderLen /\
+   old_parse_if0 a c = (a =? c) /\ old_parse_cmp0 a c = (a =? c) /\
+   old_parse_call2_asInt32 buf = buf /\
+   old_parse_if1 okHeaderLen len nameLen = ((nameLen >=? 2) && (nameLen <=? len - 2 * okHeaderLen))%bool /\
+   (old_parse_cmp1 nameLen && old_parse_cmp2 okHeaderLen len nameLen)%bool
+     = ((nameLen >=? 2) && (nameLen <=? len - 2 * okHeaderLen))%bool /\
+   old_parse_typeName_arg0 buf okHeaderLen - P = off + okHeaderLen /\
+   old_parse_typeName_arg1 buf okHeaderLen nameLen - old_parse_typeName_arg0 buf okHeaderLen = nameLen - 1 /\
+   old_parse_if2 mok = mok /\
+   old_parse_let_data buf okHeaderLen nameLen - P = off + okHeaderLen + nameLen /\
+   old_parse_let_dataLen okHeaderLen len nameLen = len - nameLen - 2 * okHeaderLen) /\
+  old_fillEmptyBuffer_assert0 (Zn r) = (r =? 0)%nat /\
+  old_fillEmptyBuffer_assert1 bs nameLen (Zn r) = (Zn r =? 4 + nameLen + bs + 4).
+Proof.
+  intros. unfold old_onMessage_while0, old_onMessage_if0, old_onMessage_cmp0, old_onMessage_cmp1, old_onMessage_if1,
+    old_onMessage_cmp2, old_onMessage_call0_parse_arg0, old_onMessage_call0_parse_arg1, old_onMessage_if2,
+    old_onMessage_cmp3, old_onMessage_call1_retrieve, old_onMessage_let_len, old_parse_call0_asInt32,
+    old_parse_call1_adler32_arg0, old_parse_call1_adler32_arg1, old_parse_if0, old_parse_cmp0, old_parse_call2_asInt32,
+    old_parse_if1, old_parse_cmp1, old_parse_cmp2, old_parse_typeName_arg0, old_parse_typeName_arg1, old_parse_if2,
+    old_parse_let_data, old_parse_let_dataLen, old_fillEmptyBuffer_assert0, old_fillEmptyBuffer_assert1, olength_bad.
+  cbv zeta. repeat split; try reflexivity; try lia.
+  - destruct (Z.eqb_spec (Zn r) 0); destruct (Nat.eqb_spec r 0); try reflexivity; lia.
 Qed.
